@@ -18,7 +18,7 @@ from fractions import Fraction
 import numpy as np
 
 from .. import universe as U
-from ..core import guarded
+from ..core import guarded, MachineryError
 from ..numeric import fr, fx_req
 from ..project import find_scale, ids
 
@@ -98,7 +98,7 @@ def geometry(mesh, kind, basis, req, dom):
     """p (scaled ints), scale, ents (vertex ids of the region's cells / facets, 1-based), reordering info."""
     sc = find_scale(mesh.p, 2)
     if sc is None:
-        raise ValueError('coordinates not dyadic')
+        raise MachineryError('generated coordinates are not dyadic')
     P = np.asarray(mesh.p) * sc
     p = [[int(x) for x in col] for col in np.rint(P).T]
     if dom == 'cells':
@@ -142,7 +142,6 @@ def exec_integrate(rec, v):
               order=0, oracle=rec['oracle'], box=v.get('box', []), val=[0] * 5, evals=[], rel=v['rel'], sgn=int(v['sgn']))
 
     def call():
-        from skfem import Functional  # noqa
         mesh = build_mesh(v)
         elemname = rec.get('elem') or DEFAULT_ELEM[kind]
         basis, req = make_basis(mesh, v, elemname, rec.get('order'))
@@ -267,10 +266,6 @@ def base_variant(kind, p, t, region, alpha, box=None, second=0):
     return v
 
 
-def cell_fverts(t, fverts):
-    return fverts
-
-
 def numbering_variant(v, rng, flip=True):
     """Renumber vertices, permute cells, change local orders (some orientation reversing)."""
     kind = v['kind']
@@ -356,7 +351,7 @@ def box_delaunay(dim, L, nextra, rng):
     return U.submesh(P.T, np.array(keep).T, range(len(keep)))
 
 
-def all_facets_of(kind, p, t, sort_t=False):
+def all_facets_of(kind, p, t):
     m = U.make(kind, p, t, **({'sort_t': False} if kind == 'tri' else {}))
     return m, [[int(x) for x in col] for col in m.facets.T]
 
@@ -406,7 +401,6 @@ def with_variants(v, rng, nnum=1, nmot=1, refine=False, translate=False):
 def gen_integrate(tier, rng):
     recs = []
     big = tier == 'thorough'
-    rep = 6 if big else 1
 
     def add(kind, fam, p, t, regions, degs, oracle, box=None, order_mode='exact', elem=None, refine=True, extra=0,
             nnum=1, nmot=1):
@@ -497,7 +491,6 @@ def gen_integrate(tier, rng):
         p, t = U.wedge_extrude(p2, t2, 2)
         add('wedge', 'UW', p, t, regions_cells(t.shape[1], rng, 1), range(0, 4), 'cells', refine=False)
         add('wedge', 'UW-box', p, t, [{'dom': 'cells', 'mode': 'all'}], (4, 5), 'box', box=([0, 0, 0], [1, 1, 2]), refine=False)
-    recs = recs * 1
     # ---- facets
     frecs = []
 
@@ -520,9 +513,6 @@ def gen_integrate(tier, rng):
             for q in degs:
                 mons = [a for a in monomials_upto(d, q) if sum(a) == q]
                 alpha = mons[int(rng.integers(len(mons)))]
-                if reg['mode'] == 'tag' and kind != 'line':
-                    # with_boundaries sorts / orients nothing here: plain index arrays
-                    pass
                 v = base_variant(kind, p, t, reg, alpha)
                 frecs.append(rec_integrate(kind, fam, with_variants(v, rng, 1, 1, refine), 'cells', q, None))
 
@@ -544,10 +534,7 @@ def gen_integrate(tier, rng):
         addf('tet', 'U3t-345-facets', p * np.array(sc)[:, None], t, (0, 1, 2), nsub=2, refine=False)
     p, t = U.hex_grid(2, 1, 1)
     addf('hex', 'U3h-facets', p, t, (0, 1, 2, 3))
-    out = recs + frecs
-    if big:
-        return out
-    return out
+    return recs + frecs
 
 
 def gen_masssum(tier, rng):
@@ -672,7 +659,7 @@ def run(ctx):
     model(ctx)
     recs = generate(ctx.tier, ctx.seed)
     scs = all_scenarios(recs)
-    ctx.validate('TraceC02', scs)
+    ctx.validate('TraceC02', scs, jvms=8)
     import json
     ctx.notes['distinct_nontrivial'] = len({json.dumps(r, sort_keys=True) for r in recs})
     ctx.notes['by_driver'] = {d: sum(1 for r in recs if r['driver'] == d) for d in EXEC}
